@@ -29,6 +29,11 @@ type caseC17 struct {
 	// holds and judges the same *Publish; "will-decoded" = the value returned
 	// by Will() of a CONNECT decoded from a frame that carries it as its will.
 	Via string `json:"via,omitempty"`
+	// Zeros: zero values are made explicit - through the API every setter is
+	// called, also with its zero value (SetTopicAlias(0)); on the wire the
+	// zero-valued properties are transmitted (topic alias 0 included: if the
+	// decoder accepts that frame, the packet is judged like any other).
+	Zeros bool `json:"zeros,omitempty"`
 }
 
 // reference predicates, written from the statement
@@ -71,11 +76,18 @@ func checkC17(c caseC17) (sig, msg string) {
 	var p mq.ControlPacket
 	if c.Wire {
 		frame := ref.Canonical(&m)
+		if c.Zeros {
+			st := ref.Style{ExplicitZero: map[byte]bool{0x23: true, 0x01: true, 0x02: true, 0x0b: true}, Form: 2}
+			frame, _ = ref.Encode(&m, st)
+		}
 		if m.Type == model.PUBLISH && m.QoS == 3 {
 			// both QoS bits set: body without packet identifier
 			mm := m.Clone()
 			mm.QoS = 0
 			frame = ref.Canonical(&mm)
+			if c.Zeros {
+				frame, _ = ref.Encode(&mm, ref.Style{ExplicitZero: map[byte]bool{0x23: true, 0x01: true, 0x02: true}, Form: 2})
+			}
 			frame[0] |= 6
 		}
 		q, err, pan := read(frame)
@@ -89,7 +101,13 @@ func checkC17(c caseC17) (sig, msg string) {
 		// judge by what the decoded packet reports
 		m = api.Observe(q)
 	} else {
-		if pan := guard.Call(func() { p = api.BuildDefault(&m) }); pan != nil {
+		if pan := guard.Call(func() {
+			if c.Zeros {
+				p = api.Build(&m, api.Plan(&m, nil, make([]bool, len(api.Setters(m.Type)))))
+			} else {
+				p = api.BuildDefault(&m)
+			}
+		}); pan != nil {
 			return "panic", fmt.Sprintf("build panicked: %v", pan.Value)
 		}
 	}
@@ -191,15 +209,19 @@ func TestC17(t *testing.T) {
 		return
 	}
 
+	zeros := false
 	runVia := func(m model.Packet, wire bool, via, class string, nt bool) (caseC17, string, string) {
 		m.Normalize()
-		c := caseC17{ModelGob: packModel(m), Model: m.String(), Wire: wire, Via: via}
+		c := caseC17{ModelGob: packModel(m), Model: m.String(), Wire: wire, Via: via, Zeros: zeros}
+		if zeros {
+			class += "/explicit-zeros"
+		}
 		sig, msg := checkC17(c)
 		if via != "" {
 			class += "/" + via
 		}
-		r.Case(vf.FPs(c.ModelGob, fmt.Sprint(wire), via), nt, class, func() interface{} {
-			return map[string]interface{}{"model": m.String(), "decoded_from_wire": wire, "via": via}
+		r.Case(vf.FPs(c.ModelGob, fmt.Sprint(wire, zeros), via), nt, class, func() interface{} {
+			return map[string]interface{}{"model": m.String(), "decoded_from_wire": wire, "via": via, "explicit_zeros": c.Zeros}
 		})
 		return c, sig, msg
 	}
@@ -218,10 +240,14 @@ func TestC17(t *testing.T) {
 							m.TopicName, m.TopicAlias, m.QoS, m.PacketID = topic, alias, qos, id
 							nt := topic == "" && alias != 0 || qos == 0 && id == 0
 							for _, via := range []string{"", "attached", "will-decoded"} {
-								c, sig, msg := runVia(m, wire, via, "publish-cube", nt)
-								if msg != "" {
-									r.Fail("wellformed", c, sig, "%s", msg)
+								for _, z := range []bool{false, true} {
+									zeros = z
+									c, sig, msg := runVia(m, wire, via, "publish-cube", nt)
+									if msg != "" {
+										r.Fail("wellformed", c, sig, "%s", msg)
+									}
 								}
+								zeros = false
 							}
 						}
 					}
@@ -282,6 +308,8 @@ func TestC17(t *testing.T) {
 		bad := publishMalformed(&m)
 		nt := !bad && (m.TopicName == "" || m.PacketID == 0)
 		via := rapid.SampledFrom([]string{"", "", "", "attached", "will-decoded"}).Draw(t, "via")
+		zeros = rapid.IntRange(0, 3).Draw(t, "zeros") == 0
+		defer func() { zeros = false }()
 		c, sig, msg := runVia(m, wire, via, fmt.Sprintf("publish/malformed=%v", bad), nt)
 		if msg != "" {
 			r.Fail("wellformed", c, sig, "%s", msg)
